@@ -704,6 +704,13 @@ def step_shapes(tier):
                             own=dict(clock=clock, local=local, slots=slots, mod=True, pj=pj,
                                      targets_a=["q0"], targets_b=["q1"]),
                             op=op, maxseq=True, nbarriers=1))
+    # a symbolic channel max_duration (not necessarily a clock multiple), also in the quick tier
+    if quick:
+        for local in (False, True):
+            for slots in own_slot_lists(1, local):
+                for op in (["add_pulse", "min-delay", "A"], ["add_pulse", "no-delay", "B"], ["add_delay"]) + ((["add_target", "diff"],) if local else ()):
+                    shapes.append(dict(own=dict(clock=4, local=local, slots=slots, mod=True, pj="custom", maxd=True,
+                                                targets_a=["q0"], targets_b=["q1"]), op=op, maxseq=False, nbarriers=1))
     # a channel without modulation bandwidth can still have a (custom) phase-jump time
     for clock in ((4,) if quick else (1, 4)):
         for local in (False, True):
